@@ -750,20 +750,16 @@ Definition request_task_rerun (t : string) (route : nat) (reset_items : bool) : 
   upd_rec idx (fun r => r_set_term r false) ;;;
   modws (fun w => ws_set_staged w (staged_update (fun s => s_set_completed s false) t route (staged w))) ;;;
   modify (fun c => set_errors c (filter (fun e => negb (opt_eqb String.eqb (er_task e) (Some t))) (c_errors c))) ;;;
-  (if task_has_items ts then
-     w <- getws ;;
-     match get_staged_task w t route with
-     | None => raise (mkexn "AttributeError" "'NoneType' object has no attribute 'get'")
-     | Some _ =>
-         modws (fun w => ws_set_staged w
-                  (staged_update
-                     (fun s => s_set_items s
-                                 (match s_items s with
-                                  | Some l => Some (map (fun st => if reset_items || status_in st ABENDED_STATUSES
-                                                                   then S_UNSET else st) l)
-                                  | None => None end))
-                     t route (staged w)))
-     end
+  w <- getws ;;
+  (if task_has_items ts && match get_staged_task w t route with Some _ => true | None => false end then
+     modws (fun w => ws_set_staged w
+              (staged_update
+                 (fun s => s_set_items s
+                             (match s_items s with
+                              | Some l => Some (map (fun st => if reset_items || status_in st ABENDED_STATUSES
+                                                               then S_UNSET else st) l)
+                              | None => None end))
+                 t route (staged w)))
    else
      add_task_state t route (r_in r) (r_prev r) ;;;
      modws (fun w => ws_add_staged w (mk_staged t route (r_in r) (r_prev r) true None))) ;;;
